@@ -84,7 +84,7 @@ def correspond(ctx):
             ctx.violation("accuracy", f"expm_krylov on an invariant subspace of dimension {c['r']} is off by {err:.3e}", {"oracle": "skeleton", **c})
 
 
-def local_exact(seed, L, chi, dt, which):
+def local_exact(seed, L, chi, dt, which, mpo="ising"):
     """update_site / update_bond on the environments of a real random MPS vs expm of the local operator assembled column by column
     from the projector (independent of the evolution helper)."""
     import mqt.yaqs.core.methods.tdvp as T
@@ -96,6 +96,14 @@ def local_exact(seed, L, chi, dt, which):
     st.normalize("B")
     dims = [1] + [t.shape[2] for t in st.tensors]
     H = MPO.ising(L, float(rng.uniform(0.4, 1.2)), float(rng.uniform(0.3, 1.0)))
+    if mpo == "product":
+        # a product operator (the generator of a gate, a single Pauli string): every MPO bond has dimension one
+        hs = []
+        for _ in range(L):
+            m_ = rng.normal(size=(2, 2)) + 1j * rng.normal(size=(2, 2))
+            hs.append(((m_ + m_.conj().T) / 2).reshape(2, 2, 1, 1))
+        H = MPO()
+        H.custom(hs, transpose=False)
     right = T.initialize_right_environments(st, H)
     i = int(rng.integers(0, L - 1))
     wl = H.tensors[0].shape[2]
@@ -225,7 +233,7 @@ def accuracy_oracle(args):
                     f"({sub}, size {a.shape[0]}, scale {args['eps']:.1e}, dt={dt:.3g})")
         return None
     if kind == "local_exact":
-        err, defect, nloc, width = local_exact(args["seed"], args["L"], args["chi"], dt, args["which"])
+        err, defect, nloc, width = local_exact(args["seed"], args["L"], args["chi"], dt, args["which"], args.get("mpo", "ising"))
         if defect < 1e-9 and width * abs(dt) <= 12 and err > 1e-8:
             return (f"update_{args['which']} on a local space of {nloc} entr{'y' if nloc == 1 else 'ies'} (bond dimension {args['chi']}) differs from exp(-i dt H_loc) "
                     f"by {err:.3e} (relative), dt={dt}")
@@ -300,7 +308,7 @@ def search(ctx):
     for k in range(ctx.scale(18, 200)):
         # local TDVP updates on the environments of real states, down to product states (one-entry bond tensors)
         plan.append(dict(kind="local_exact", seed=int(ctx.rng.integers(0, 2**31)), n=0, L=int(ctx.rng.integers(2, 6)), chi=[1, 1, 2, 3, 4, 6][k % 6],
-                         which=["bond", "site"][k % 2], dt=float(ctx.rng.choice([-0.7, 0.05, 0.3, 0.7]))))
+                         which=["bond", "site"][k % 2], dt=float(ctx.rng.choice([-0.7, 0.05, 0.3, 0.7])), mpo=["ising", "product", "ising"][(k // 2) % 3]))
     plan += [dict(kind="numba", seed=1, n=4095, dt=0.1), dict(kind="numba", seed=2, n=4096, dt=0.1), dict(kind="numba", seed=3, n=1200, dt=-0.2),
              dict(kind="numba", seed=5, n=4097, dt=0.5), dict(kind="numba", seed=6, n=4225, dt=-0.7)]  # odd lengths on the compiled path (65x65 bonds, qutrit sites)
     if not ctx.quick:
